@@ -93,7 +93,17 @@ func init() {
 		})}
 	}
 	extraChecks["C13"] = func(p *Program, tier string) []*FuncReport { return []*FuncReport{runParamsWriterCheck(p)} }
-	extraChecks["C12"] = func(p *Program, tier string) []*FuncReport { return []*FuncReport{runArgOrderCheck(p, "C12")} }
+	for _, id := range []string{"C12", "C16", "C17"} {
+		id := id
+		prev := extraChecks[id]
+		extraChecks[id] = func(p *Program, tier string) []*FuncReport {
+			var out []*FuncReport
+			if prev != nil {
+				out = prev(p, tier)
+			}
+			return append(out, runArgOrderCheck(p, id))
+		}
+	}
 	extraChecks["C11"] = func(p *Program, tier string) []*FuncReport {
 		return []*FuncReport{runEffectCheck(p, "determinism", map[string]bool{EffTime: true, EffRand: true, EffMapRange: true, EffGo: true, EffGlobalW: true}, custom)}
 	}
